@@ -3,16 +3,16 @@ import json, os
 import verif
 
 
-def classify(r):
+def features(r):
     pats = r["pats"]
     parts = [a for p in pats for a in p["parts"]]
     k = []
-    if r.get("panic"):
-        k.append("panic")
     if r.get("fold"):
         k.append("insensitive")
-    if len(pats) > 1 or any(p["neg"] for p in pats):
-        k.append("list-negation" if any(p["neg"] for p in pats) else "list")
+    if any(p["neg"] for p in pats):
+        k.append("negation")
+    elif len(pats) > 1:
+        k.append("list")
     if "**" in parts:
         k.append("doublestar")
     if any(p["abs"] for p in pats):
@@ -20,19 +20,58 @@ def classify(r):
     return "+".join(k) or "plain"
 
 
+def diagnose(ctx, bad_recs):
+    """Ask the model (Fn_GlobDiag) what it expects for the rejected records."""
+    res = ctx.tlc("Fn_GlobDiag", files={"bad.ndjson": "\n".join(json.dumps(r) for r in bad_recs) + "\n"}, workers=1,
+                  deadlock=False, timeout=900, name="diag")
+    exp = [json.loads(l) for l in open(os.path.join(res["dir"], "exp.ndjson")).read().splitlines() if l.strip()]
+    if len(exp) != len(bad_recs):
+        raise verif.MachineryError("Fn_GlobDiag wrote %d of %d expectations" % (len(exp), len(bad_recs)))
+    return exp
+
+
 def run(ctx):
     out = ctx.go_test("internal/filter", "^TestVerif_C28$", timeout=1700)
-    n, bad, lines = ctx.check_records("Fn_Glob", os.path.join(out, "recs.ndjson"), shard=ctx.pick(150, 250), timeout=1500)
-    for i in bad[:200]:
-        r = json.loads(lines[i - 1])
+    n, bad, lines = ctx.check_records("Fn_Glob", os.path.join(out, "recs.ndjson"), shard=ctx.pick(420, 1100), timeout=1500)
+    bad = bad[:150]
+    bad_recs = [json.loads(lines[i - 1]) for i in bad]
+    exps = diagnose(ctx, bad_recs) if bad_recs else []
+    for r, e in zip(bad_recs, exps):
+        real_l, exp_l = set(r["l"]), set(e["l"])
+        dev = {}
+        for name, real in (("List", set(r["l"])), ("ListWithChild", set(r["lw"]))) + ((("Match", set(r["m"])),) if r["single"] else ()):
+            if real != exp_l and not e["bad"]:
+                dev[name] = {"missing": sorted(exp_l - real)[:12], "extra": sorted(real - exp_l)[:12]}
+        child = {}
+        for name, real in (("ListWithChild.child", set(r["lc"])),) + ((("ChildMatch", set(r["c"])),) if r["single"] else ()):
+            miss = (set(e["need"]) | set(r["deep"])) - real
+            if miss and not e["bad"]:
+                child[name] = sorted(miss)[:12]
+        multi = any(p["parts"].count("**") >= 2 for p in r["pats"])
+        if r["panic"]:
+            key = "glob/panic"
+        elif r["valerr"] != e["bad"]:
+            key = "glob/validate-patterns"
+        elif r["err"] and not e["bad"]:
+            key = "glob/error-on-valid-pattern"
+        elif multi and dev and not child and not any(p["neg"] for p in r["pats"]) and all(not d["extra"] for d in dev.values()):
+            key = "glob/multi-doublestar-missed-match"
+        else:
+            kinds = []
+            if any(d["missing"] for d in dev.values()):
+                kinds.append("missed-match")
+            if any(d["extra"] for d in dev.values()):
+                kinds.append("extra-match")
+            if child:
+                kinds.append("child-unsound")
+            key = "glob/%s/%s" % ("+".join(kinds) or "other", features(r))
         small = {k: r[k] for k in ("raw", "pats", "alpha", "depth", "fold", "via", "single", "err", "panic", "panicv", "valerr")}
-        for k in ("m", "c", "l", "lw", "lc", "deep"):
-            small[k] = r[k][:40]
-        ctx.violate("glob/" + classify(r),
-                    "pattern list %s (via %s%s): real Match/ChildMatch/List/ListWithChild/ValidatePatterns results on the universe "
-                    "(<=%d components over %s) are not the ones Fn_Glob!RecOK allows (err=%s panic=%s %s valerr=%s)"
-                    % (r["raw"], r["via"], ", case-insensitive" if r["fold"] else "", r["depth"], r["alpha"], r["err"], r["panic"],
-                       r.get("panicv", ""), r["valerr"]), small)
+        small.update({"deviation": dev, "children_may_match_false_above_a_match": child})
+        ctx.violate(key, "pattern list %s (via %s%s) on all paths of <=%d components over %s: real results are not the ones Fn_Glob!RecOK "
+                         "allows: %s%s%s" % (r["raw"], r["via"], ", case-insensitive" if r["fold"] else "", r["depth"], r["alpha"],
+                                             json.dumps(dev)[:400], (" child-unsound " + json.dumps(child)[:300]) if child else "",
+                                             " err=%s panic=%s %s valerr=%s" % (r["err"], r["panic"], r.get("panicv", ""), r["valerr"])), small)
+    ctx.violations.sort(key=lambda v: v["key"] == "glob/multi-doublestar-missed-match")   # report other classes first
     res = ctx.go_results[-1]
     samples = []
     for l in (lines[0], lines[len(lines) // 2], lines[-1]):
@@ -44,7 +83,7 @@ def run(ctx):
            "exhaustive": ctx.thorough()}
     return verif.finish(ctx, "exploration", cov,
                         ["oracle = Fn_Glob.tla, written from doc/040_backup.rst and the filepath.Match documentation; TLC evaluates RecOK on every record",
-                         "the Go driver splits nothing: it composes the pattern text from [neg, abs, components] (with equivalent spellings: trailing '/', '//', './', '/.') and the spec judges the structured form",
-                         "glob syntax of components and characters of path components come from the finite tables AtomTok/CompChars of the spec",
+                         "the Go driver composes the pattern text from [neg, abs, components] (with the equivalent spellings trailing '/', '//', './', '/.') and the spec judges the structured form",
+                         "glob syntax of components and characters of path components come from the finite tables AtomTab/CompTab of the spec",
                          "for malformed patterns only 'ValidatePatterns rejects' and 'no panic' are demanded; for children-may-match only the soundness direction",
                          "paths outside the universe ('', '/', '//', 'a/', 'a//b', ...) are only checked for panics"])
